@@ -204,6 +204,14 @@ ALSO['C10'] += ' Evaluations within millikelvins of T_ref; temperature through t
 ALSO['C11'] += ' Fitted T_mid values observed at the boundary; coverage passed to the getters.'
 ALSO['C16'] += ' Temperature-dependent heat capacities; species used above their fitted range.'
 ALSO['C01'] += ' Integer temperatures.'
+# round 6
+ALSO['C01'] += ' Misc models on species; rotational temperatures against the principal moments of inertia.'
+ALSO['C07'] += ' Capitalised phase names, reactor initial states, each phase\'s mechanism links.'
+ALSO['C08'] += ' Species with user-set constant modes; H and G for the Chemkin and surface classes; q of activation.'
+ALSO['C10'] += ' G with references off, in energy units.'
+ALSO['C11'] += ' Offsets-only References; models appended after construction.'
+ALSO['C13'] += ' Coverage term computed from its definition; coverages 0 and 1.'
+ALSO['C17'] += ' Dimensional getter, numpy indices, exports leave the object unchanged.'
 
 
 def build():
